@@ -795,8 +795,8 @@ def _rechunk_over(w, E, p, new_blocks, tag="r"):
 
 
 def _square(w, E, m):
-    x = source(w, E, "x", (m,))
-    return source(w, E, "x", (m, m), chunks=[x.node.chunks[0], x.node.chunks[0]])
+    c = source(w, E, "c", (m,))
+    return source(w, E, "x", (m, m), chunks=[c.node.chunks[0], c.node.chunks[0]])
 
 
 def _add_where_out(w, E, blocks, mask_blocks, mask_axes=None, pre=False, aligned_mask=False):
